@@ -62,6 +62,7 @@ type impResult struct {
 	hAuthOK   bool   // E verified H's AuthSigMessage against H's true key and the challenge
 	hAuthSeen bool
 	harness   string
+	skipped   bool // the attack could not be mounted (nothing captured in the parallel session)
 }
 
 func ephScalar(seed int) (out [32]byte) {
@@ -104,8 +105,11 @@ func captureAuth(p *impPlan, res *impResult, mu *sync.Mutex) []byte {
 		return nil
 	}
 	if err != nil || vErr != nil || vsc == nil || !samePub(vsc.RemotePubKey(), key(p.E).PublicKey) {
-		res.harness = fmt.Sprintf("parallel honest session V<->E failed: E: %v, V: %v", err, vErr)
-		return nil
+		// An honest session between the real code and the independent implementation did not complete: the run
+		// is inconclusive (reported when the test ends).  V sends its AuthSigMessage before it judges ours, so the
+		// attacker may hold it all the same and the attack goes on with it.
+		atomic.AddInt64(&controlFailed, 1)
+		controlDetail.Store(fmt.Sprintf("parallel honest session V<->E: E: %v, V: %v, case: %s", err, vErr, p.String()))
 	}
 	return raw
 }
@@ -115,7 +119,8 @@ func runImpostor(p *impPlan) (res impResult) {
 	var replayed []byte
 	if p.Variant == "replayed-auth-parallel-session" {
 		replayed = captureAuth(p, &res, &mu)
-		if res.pp != nil || res.harness != "" {
+		if res.pp != nil || replayed == nil {
+			res.skipped = replayed == nil
 			return
 		}
 	}
@@ -289,6 +294,9 @@ func judgeImpostor(t ev.TB, p *impPlan, res *impResult) {
 	if res.harness != "" {
 		t.Fatalf("harness: %s\ncase: %s", res.harness, text)
 	}
+	if res.skipped {
+		return
+	}
 	if p.Variant == "control.genuine-key" {
 		// A harness that cannot complete an honest handshake proves nothing about impostors.  That is not a violation
 		// (the property does not promise interoperability with another implementation) but it makes the run
@@ -301,8 +309,10 @@ func judgeImpostor(t ev.TB, p *impPlan, res *impResult) {
 		if !samePub(res.hRemote, key(p.V).PublicKey) {
 			ev.Violation(t, "sc.remote-pubkey-wrong", text, "honest peer authenticated with key%d but RemotePubKey differs", p.V)
 		}
+		// H has just accepted our signature over the challenge as we computed it, so that is H's challenge too: its
+		// own AuthSigMessage must carry its key and a signature over the same value
 		if !res.hAuthOK {
-			ev.Violation(t, "sc.auth-message-not-verifiable", text, "the AuthSigMessage sent by the real code does not carry its public key with a signature over the session challenge")
+			ev.Violation(t, "sc.auth-message-not-verifiable", text, "the real code accepted a signature over the session challenge but its own AuthSigMessage does not carry its public key with a signature over that challenge")
 		}
 		totalE, totalH := 0, 0
 		for _, n := range p.DataE {
@@ -326,9 +336,6 @@ func judgeImpostor(t ev.TB, p *impPlan, res *impResult) {
 		}
 		key := "sc.impostor." + p.Variant + ".accepted"
 		ev.Violation(t, key, text, "the honest end completed the handshake (RemotePubKey = %s) with a peer that %s", who, map[bool]string{true: "offered a small-order ephemeral key (shared secret all zero)", false: "never proved possession of the claimed key"}[p.Variant == "low-order-eph.own-identity"])
-	}
-	if res.hAuthSeen && !res.hAuthOK {
-		ev.Violation(t, "sc.auth-message-not-verifiable", text, "the AuthSigMessage sent by the real code does not carry its public key with a signature over the session challenge")
 	}
 }
 
